@@ -40,5 +40,8 @@ Proof.
         split; reflexivity. }
     destruct (G subs IH) as [E1 E2]. rewrite E1. cbn [fst snd]. rewrite E2. reflexivity.
 Qed.
+Theorem model_prune_src_is_dead L : model_prune_src L = dead (Leaf L).
+Proof. unfold model_prune_src. simpl. destruct (l_pins L); reflexivity. Qed.
 End PruneSrc.
 Print Assumptions prune_src_is_prune.
+Print Assumptions model_prune_src_is_dead.
